@@ -236,15 +236,34 @@ class Engine:
 
     def choose_value(self, t, limit=512):
         """Concretise term t by forking over its feasible values. The value tried is logged ('v'),
-        the outcome of `t == value` is an ordinary logged branch, so replay needs no model."""
-        for _ in range(limit):
+        the outcome of `t == value` is an ordinary logged branch, so replay needs no model.
+        Order: the current model's value first; when the term turns out to have more than one feasible value, the boundary values
+        of its sort next (all ones, sign boundaries, zero - whichever the path allows), then whatever the solver proposes: still an
+        enumeration of every feasible value, but the corners come before the 2^k-th small number."""
+        tried = set()
+        for i in range(limit):
             replay, val = self._next_logged("v")
             if replay:
                 self.log.append(("v", val))
             else:
-                v = self.get_model().eval(t, model_completion=True)
-                val = v.as_signed_long() if z3.is_bv(v) else v.as_long()
+                val = None
+                if i > 0:
+                    for c in _boundary_values(t):
+                        if c in tried:
+                            continue
+                        tried.add(c)
+                        try:
+                            if self.solver.check(t == _const_like(c, t)) == z3.sat:
+                                val = c
+                                break
+                        except z3.Z3Exception:
+                            break
+                    self.model = None
+                if val is None:
+                    v = self.get_model().eval(t, model_completion=True)
+                    val = v.as_signed_long() if z3.is_bv(v) else v.as_long()
                 self._record("v", val)
+            tried.add(val)
             if self.branch(t == _const_like(val, t)):
                 return val
         raise EngineLimit("too many values to concretise")
@@ -337,6 +356,13 @@ class Engine:
                 self._disarm()
                 if self.on_path_fail is not None:
                     self.on_path_fail(self, "engine limit: " + str(lim))
+            except HARNESS_SIDE as ex:
+                self._disarm()
+                self.stats["abandoned"] += 1
+                if len(self.limits) < 20:
+                    self.limits.append(f"solver binding error {type(ex).__name__}: {str(ex)[:120]}")
+                if self.on_path_fail is not None:
+                    self.on_path_fail(self, "solver binding error")
             except Exception as ex:
                 self._disarm()
                 if self.on_path_fail is not None and self.on_path_fail(self, f"{type(ex).__name__}: {ex}"):
@@ -368,6 +394,18 @@ class Engine:
             signal.setitimer(signal.ITIMER_REAL, 0)
         except ValueError:
             pass
+
+
+def _boundary_values(t):
+    if z3.is_bv(t):
+        n = t.size()
+        return [-1, -(1 << (n - 1)), (1 << (n - 1)) - 1, 0, 1]          # signed view of all-ones, sign bit, max positive
+    return [255, 128, 127, 65535, 32768, 32767, (1 << 32) - 1, 1 << 31, (1 << 31) - 1, 0, 1, -1, -128, -32768, -(1 << 31)]
+
+
+import ctypes as _ctypes
+# raised by the solver bindings themselves (e.g. a solver call interrupted by the per-path alarm): never behaviour of the code under test
+HARNESS_SIDE = (_ctypes.ArgumentError, z3.Z3Exception)
 
 
 class LinStore:
